@@ -5,7 +5,8 @@
 From Coq Require Import NArith List Bool Arith Lia Permutation Sorted.
 From CL Require Import Base.Sx Base.Res Base.Str Model.AddRemove Model.Merge Generated.C04Facts
   Model.Entry Model.ParseFormats
-  Proofs.MergeProofs Proofs.MergeReparse Proofs.MergeRefuted.
+  Proofs.MergeProofs Proofs.MergeReparse Proofs.MergeRefuted
+  Proofs.C02BlocksRx Proofs.C02BlocksVal Proofs.C02Blocks Proofs.MergeReparseProps.
 Import ListNotations.
 Local Open Scope nat_scope.
 
@@ -161,15 +162,15 @@ Theorem C04_raises_only : forall caps contents (skips : list skip) missing refs 
 Proof. exact (merge_raises_only_by_sort_or_lookup keqb). Qed.
 
 (* ---- C04_reparse_partial ------------------------------------------------------
-   PARTIAL: the re-parse clause ("the staged file compares again with no junk,
-   nothing missing") is proved only relative to a block-compositional parser:
-   [parse_blocks] (the per-format block theorem of C02, not proved here, and
-   false of .properties for a kept text ending in a backslash, see
-   C04_unrestricted_refuted) is a premise.  The localization is a list of
-   blocks, the flagged ones being the skips; the staged text then parses as
-   the unflagged blocks, a newline, and the newline-terminated reference texts
-   of the missing keys and of the flagged non-junk blocks.  The harness checks
-   the clause on the implementation by comparing the staged file again. *)
+   PARTIAL (all formats but .properties, for which see C04_reparse_properties
+   below): the re-parse clause ("the staged file compares again with no junk,
+   nothing missing") relative to a block-compositional parser: [parse_blocks]
+   (the per-format block theorem of C02; it exists for .properties only) is a
+   premise.  The localization is a list of blocks, the flagged ones being the
+   skips; the staged text then parses as the unflagged blocks, a newline, and
+   the newline-terminated reference texts of the missing keys and of the
+   flagged non-junk blocks.  The harness checks the clause on the
+   implementation for every format by comparing the staged file again. *)
 Theorem C04_reparse_partial :
   forall (E : Type) (parse entries : str -> list E) (legal : list str -> Prop),
   (forall ts, legal ts -> parse (concat ts) = flat_map entries ts) ->
@@ -185,6 +186,85 @@ Theorem C04_reparse_partial :
 Proof. intros E parse entries legal H. exact (reparse_blocks keqb parse entries legal H). Qed.
 
 End C04.
+
+(* ---- C04_reparse_properties -----------------------------------------------------
+   The re-parse clause for .properties at full strength, from the block theorem
+   of C02 (Proofs/C02Blocks.v: blocks_properties, C02_roundtrip_properties_multi).
+
+   [bs]: the localization as a legal block list (blank runs, standalone comments,
+   entities with attached comments and continuation lines; the last entity may
+   lack its final newline); [es] its parse.  [skips]: in any order, the entities
+   OF THAT PARSE whose key is selected by [sel], with the spans of the parse -
+   this is the premise that makes the splice land on block boundaries: by
+   blocks_properties an entity span covers exactly  key separator value  of one
+   entity block, neither its attached comment nor its final newline.  [abs]: the
+   reference entities whose Entity.all texts the lookup of the missing keys and
+   then of the skipped keys (file order) returns, each a legal entity block whose
+   text does not end in a newline ([legal_ref]).
+
+   Then merge stages a text [t] that is again the text of a legal, separated block
+   list [out] (the kept blocks - a skipped entity leaves its attached comment as a
+   standalone comment and its final newline -, the separating newline, which
+   becomes the final newline of a last entity that lacked it, and the reference
+   entities), so parsing [t] yields exactly: every localized entity that was not
+   selected, unchanged (key, raw value, attached comment) and in the original
+   order; then the appended reference entities in the order given; no junk; and
+   with nothing to skip and nothing missing [t] is the localization itself.
+
+   Premises that exclude known findings, both needed:
+   - legality of [bs] excludes a last value ending in an odd run of backslashes
+     (finding D3, C04_unrestricted_refuted; C04_reparse_premises_needed);
+   - [legal_ref] excludes a reference value that ends in a continuation newline
+     (C04_reparse_reference_refuted). *)
+Theorem C04_reparse_properties :
+  forall (bs abs : list block) (sel : str -> bool) (missing : list str)
+         (refs : list (str * str)) (es : list entry) (skips : list (Merge.skip (K := str))),
+  Forall legal_block bs -> adjacent_ok bs ->
+  walk_properties (file_text bs) = Ok es ->
+  Permutation skips (parse_skips sel (file_text bs) es) ->
+  Forall legal_ref abs ->
+  map_result (ref_all str_eqb refs) (missing ++ filter sel (map rkey (records_of bs)))
+    = Ok (map entity_all abs) ->
+  exists a t out es',
+    merge str_eqb true caps_properties (file_text bs) skips missing refs = Ok a /\
+    staged_text (file_text bs) a = Some t /\
+    out = (if nonempty skips || nonempty missing then merged_blocks sel bs abs else bs) /\
+    t = file_text out /\ Forall legal_block out /\ adjacent_ok out /\
+    walk_properties t = Ok es' /\
+    map (entity_record t) (filter (is_kind KEntity) es') =
+      filter (fun r => negb (sel (rkey r))) (records_of bs) ++ records_of abs /\
+    filter (is_kind KJunk) es' = [].
+Proof. exact reparse_properties. Qed.
+
+(* the legality premise is needed: the localization of D3 is not a legal block list *)
+Theorem C04_reparse_premises_needed :
+  let b := BEntity [] [97%N] [] 61%N [] [] [120; 92]%N false in      (*  a=x\  *)
+  file_text [b] = d3_l10n /\ legal_blockb b = false.
+Proof. exact d3_not_legal. Qed.
+
+(* the [legal_ref] premise is needed: a clean reference  k=a\ / <empty line> / b=2  (a
+   legal block list that parses without junk) whose entity k has an Entity.all ending in
+   a newline; for the localization  x=1  merge stages  x=1 / / k=a\ / b=2  and the staged
+   text parses to the keys x and k only: b is swallowed by the continuation *)
+Theorem C04_reparse_reference_refuted :
+  exists (bs abs : list block) (missing : list str) (refs : list (str * str)) t,
+    Forall legal_block bs /\ adjacent_ok bs /\
+    Forall legal_block abs /\ adjacent_ok abs /\
+    walk_properties (file_text abs) = Ok (entries_of abs) /\
+    forallb is_entity abs = true /\
+    map rkey (records_of abs) = missing /\
+    map_result (ref_all str_eqb refs) missing = Ok (map entity_all abs) /\
+    (do a <- merge str_eqb true caps_properties (file_text bs) [] missing refs;
+     match staged_text (file_text bs) a with Some t => Ok t | None => Raise AssertionError end)
+      = Ok t /\
+    missing = [[107%N]; [98%N]] /\ parsed_keys t = Ok [[120%N]; [107%N]].
+Proof.
+  exists [lx_block], [rk_block; rb_block], [[107%N]; [98%N]],
+         (map (fun b => (rkey (hd ([], [], None) (records_of [b])), entity_all b)) [rk_block; rb_block]),
+         [120; 61; 49; 10;  10;  107; 61; 97; 92; 10;  98; 61; 50; 10]%N.
+  split; [repeat constructor|]. split; [vm_compute; reflexivity|].
+  split; [repeat constructor|]. repeat split; vm_compute; reflexivity.
+Qed.
 
 (* ---- C04_pure -----------------------------------------------------------------
    The action is the only effect, and it touches merge_file only: applied to
@@ -330,3 +410,40 @@ Example C04_copy_example :
   merge str_eqb true caps_inc [] [] [[97%N]] [] = Ok CopyRef /\
   merge str_eqb false caps_inc [] [] [[97%N]] [] = Ok NoFile.
 Proof. vm_compute. repeat split; reflexivity. Qed.
+
+(* C04_reparse_properties on a concrete file, evaluated by the kernel.
+   localization:   # c1 / a = 1 / #cb / b: %d / <blank line> / c=x\ /  y   (no final newline)
+   selected: b;  missing: d;  reference entities appended: d (with a comment), then b *)
+Definition ex_la : block := BEntity [(35%N, [32; 99; 49]%N)] [97%N] [32%N] 61%N [32%N] [] [49%N] true.
+Definition ex_lb : block := BEntity [(35%N, [99; 98]%N)] [98%N] [] 58%N [32%N] [] [37; 100]%N true.
+Definition ex_lc : block := BEntity [] [99%N] [] 61%N [] [[120; 92]%N] [32; 121]%N false.
+Definition ex_rd : block := BEntity [(33%N, [100]%N)] [100%N] [] 61%N [] [] [52%N] true.
+Definition ex_rb : block := BEntity [] [98%N] [] 61%N [] [] [37; 83]%N false.
+
+Example C04_reparse_properties_example :
+  let bs := [ex_la; ex_lb; BBlank [10%N]; ex_lc] in
+  let abs := [ex_rd; ex_rb] in
+  let sel := str_eqb [98%N] in
+  let refs := [([98%N], entity_all ex_rb); ([120%N], [120; 61; 48]%N); ([100%N], entity_all ex_rd)] in
+  let skips := parse_skips sel (file_text bs) (entries_of bs) in
+  (* the premises *)
+  forallb legal_blockb bs = true /\ adjacent_okb bs = true /\
+  walk_properties (file_text bs) = Ok (entries_of bs) /\
+  skips = [mkskip (Some 15, Some 20) [98%N] false] /\
+  forallb (fun b => is_entity b && legal_blockb b && negb (ends_with_nl (entity_all b))) abs = true /\
+  map_result (ref_all str_eqb refs) ([[100%N]] ++ filter sel (map rkey (records_of bs)))
+    = Ok (map entity_all abs) /\
+  (* the staged text: the attached comment of b and its newline stay, the last entity gets
+     its final newline, d and b follow *)
+  merge str_eqb true caps_properties (file_text bs) skips [[100%N]] refs
+    = Ok (Write (file_text (merged_blocks sel bs abs))) /\
+  file_text (merged_blocks sel bs abs) =
+    ([35;32;99;49;10; 97;32;61;32;49;10;  35;99;98;10; 10;  10;  99;61;120;92;10;32;121;10;
+      33;100;10;100;61;52;10;  98;61;37;83;10])%N /\
+  (* and its parse: a and c unchanged, then d and b of the reference, no junk *)
+  (do es' <- walk_properties (file_text (merged_blocks sel bs abs));
+   Ok (map (entity_record (file_text (merged_blocks sel bs abs))) (filter (is_kind KEntity) es'),
+       filter (is_kind KJunk) es'))
+  = Ok ([([97%N], [49%N], Some [35;32;99;49]%N); ([99%N], [120;92;10;32;121]%N, None);
+         ([100%N], [52%N], Some [33;100]%N); ([98%N], [37;83]%N, None)], []).
+Proof. cbv zeta. repeat split; vm_compute; reflexivity. Qed.
